@@ -141,7 +141,13 @@ def run_contract(con: Any, args: dict[str, Any]) -> dict[str, Any]:
     raises = con.__dict__.get("raises") or {}
     ensures = con.__dict__.get("ensures")
     expected = {name: bool(call_named(cond, args)) for name, cond in raises.items()}
-    old = _Old({k: copy.deepcopy(v) for k, v in args.items()})
+    def entry_copy(value: Any) -> Any:
+        try:
+            return copy.deepcopy(value)
+        except Exception:  # pylint: disable=broad-except
+            # objects that cannot be copied (a __getattr__ answering every name) are used as they are
+            return value
+    old = _Old({k: entry_copy(v) for k, v in args.items()})
     try:
         result = func(**args)
     except Exception as exc:  # pylint: disable=broad-except
@@ -162,12 +168,37 @@ def run_contract(con: Any, args: dict[str, Any]) -> dict[str, Any]:
     values = dict(args)
     values["result"] = result
     values["old"] = old
+    dsl.NATIVE_STRINGS = _strings_of([args, result])
     clauses = ensures.items() if isinstance(ensures, dict) else ([("", ensures)] if ensures else [])
     for label, fn in clauses:
         if not call_named(fn, values):
             return {"status": "violated", "outcome": "return",
                     "detail": f"postcondition {label or 'ensures'} false natively; result {result!r}"}
     return {"status": "ok", "outcome": "return", "result": repr(result)[:200]}
+
+
+def _strings_of(value: Any, depth: int = 0, seen: Any = None) -> set:
+    """every string reachable from the value (containers, instance dicts and slots), for forall_str"""
+    seen = set() if seen is None else seen
+    found: set = set()
+    if isinstance(value, str):
+        return {value}
+    if depth > 6 or id(value) in seen or isinstance(value, (int, float, bool, type(None))):
+        return found
+    seen.add(id(value))
+    if isinstance(value, dict):
+        for key, item in value.items():
+            found |= _strings_of(key, depth + 1, seen) | _strings_of(item, depth + 1, seen)
+    elif isinstance(value, (list, tuple, set, frozenset)):
+        for item in value:
+            found |= _strings_of(item, depth + 1, seen)
+    else:
+        for name in list(getattr(value, "__dict__", {})) + list(getattr(type(value), "__slots__", ())):
+            try:
+                found |= _strings_of(object.__getattribute__(value, name), depth + 1, seen)
+            except Exception:  # pylint: disable=broad-except
+                pass
+    return found
 
 
 def batch() -> int:
